@@ -107,7 +107,9 @@ func c03Receiver(which int) *secp256k1.Element {
 		return secp256k1.NewElement()
 	}
 
-	return newElement(Rep{ref.Secp.Double(ref.G()), big.NewInt(3)})
+	// a representation whose twelve limbs are all dense: a decoder that overwrites only part of a coordinate
+	// (say, sets the low limb of Z to the Montgomery form of 1 and forgets to clear the others) leaves a trace
+	return newElement(Rep{HPoint(), ref.Mod(alpha.Fixed(1, "c03-prior-receiver")[0], ref.P)})
 }
 
 // c03Case presents b to decoder di (5 = DecodeCoordinates on b[1:33], b[33:65]) with receiver `which`.
